@@ -141,8 +141,11 @@ DirLimit(ms, count) == IF count = Huge \/ count > ms - (Header + 4) THEN ms - (H
 DirFitCases == {<<ms, Huge>> : ms \in 2048..2119} \cup {<<8192, c>> : c \in 0..150} \cup {<<ms, ms - 11>> : ms \in 700..760}
 ASSUME \A i \in 1..Len(DirNameLens) : DirentSize(DirNameLens[i]) = 24 + DirNameLens[i]
 
+\* kinds: Tread on a file, Treaddir, and Tread on a fid made by Txattrwalk (the attribute's value is served
+\* from memory by another branch of the handler)
 SizeCases == {<<ms, c, k, r>> : ms \in ReadMsizes, c \in UNION {Counts(m) : m \in ReadMsizes}, k \in {"read", "readdir"},
                                 r \in {"once", "smaller", "larger"}}
+             \cup {<<ms, c, "xread", "once">> : ms \in ReadMsizes, c \in UNION {Counts(m) : m \in ReadMsizes}}
 \* "smaller"/"larger": the msize was first negotiated as 4*ms (capped) / ms \div 2 and then re-negotiated to ms
 SizeCasesOK == {c \in SizeCases : c[2] = Huge \/ c[2] >= 0}
 =============================================================================
